@@ -112,11 +112,41 @@ get_cpuid_ecx (orc_uint32 op, orc_uint32 init_ecx, orc_uint32 *a, orc_uint32 *b,
 #endif
 }
 
+#ifdef ORC_VERIF_HOOKS
+/* Verification hook: ORC_VERIF_CPUID="l1ecx:l1edx:l7ebx:x1ecx:x1edx:xcr0" (hex)
+ * are AND-masks applied to cpuid leaf 1 (ecx, edx), leaf 7 (ebx), leaf
+ * 0x80000001 (ecx, edx) and to the XCR0 word, so that one host can present
+ * any subset of its features. */
+static orc_uint32 orc_verif_cpuid_mask[6] = { ~0u, ~0u, ~0u, ~0u, ~0u, ~0u };
+static void
+orc_verif_cpuid_masks (void)
+{
+  static int parsed = 0;
+  const char *e;
+  int i;
+
+  if (parsed) return;
+  parsed = 1;
+  e = getenv ("ORC_VERIF_CPUID");
+  for (i = 0; e && *e && i < 6; i++) {
+    char *end;
+    orc_verif_cpuid_mask[i] = (orc_uint32) strtoul (e, &end, 16);
+    e = (*end == ':') ? end + 1 : end;
+  }
+}
+#endif
+
 static void
 get_cpuid (orc_uint32 op, orc_uint32 *a, orc_uint32 *b,
     orc_uint32 *c, orc_uint32 *d)
 {
   get_cpuid_ecx (op, 0, a, b, c, d);
+#ifdef ORC_VERIF_HOOKS
+  orc_verif_cpuid_masks ();
+  if (op == 0x00000001) { *c &= orc_verif_cpuid_mask[0]; *d &= orc_verif_cpuid_mask[1]; }
+  if (op == 0x00000007) { *b &= orc_verif_cpuid_mask[2]; }
+  if (op == 0x80000001) { *c &= orc_verif_cpuid_mask[3]; *d &= orc_verif_cpuid_mask[4]; }
+#endif
 }
 
 #else
@@ -332,6 +362,10 @@ static orc_bool check_xcr0_ymm()
 #else
 static orc_bool ORC_TARGET_XSAVE check_xcr0_ymm()
 {
+#ifdef ORC_VERIF_HOOKS
+  orc_verif_cpuid_masks ();
+  return (_xgetbv(0) & orc_verif_cpuid_mask[5] & XSAVE_SUPPORT_AVX) == XSAVE_SUPPORT_AVX;
+#endif
   return (_xgetbv(0) & XSAVE_SUPPORT_AVX) == XSAVE_SUPPORT_AVX;
 }
 #endif
